@@ -24,10 +24,10 @@ SetFamily *make_set_family_flat(const char *name, const char *elem) {
 template <class E>
 SetFamily *make_set_family_small(const char *name, const char *elem) {
   return SetFamilyBuilder<amc::SmallSet<E, 3, Cmp0, AS<E>>, amc::SmallSet<E, 1, Cmp0, AS<E>>, amc::SmallSet<E, 5, Cmp1, AS<E>>,
-                          amc::SmallSet<E, 3, CmpT, AB<E>, amc::FlatSet<E, CmpT, AB<E>>>, amc::SmallSet<E, 2, CmpT, AB<E>, amc::FlatSet<E, CmpT, AB<E>>>,
+                          amc::SmallSet<E, 3, CmpT, AB<E>, amc::FlatSet<E, CmpT, AB<E>>>, amc::SmallSet<E, 8, CmpT, AB<E>, amc::FlatSet<E, CmpT, AB<E>>>,
                           amc::SmallSet<E, 2, Cmp0, AM<E>>>::
       build(name, elem, {"SmallSet<3,std::set<S>>", "SmallSet<1,std::set<S>>", "SmallSet<5,std::set<S>,cmp1>", "SmallSet<3,FlatSet<B>,transparent>",
-                         "SmallSet<2,FlatSet<B>,transparent>", "SmallSet<2,std::set<M>>"});
+                         "SmallSet<8,FlatSet<B>,transparent>", "SmallSet<2,std::set<M>>"});
 }
 }  // namespace sim
 
